@@ -28,16 +28,25 @@ VARIABLES m, reg
 
 DynOps == <<"addfps8f4", "addfxps8f4", "calla4st", "callo4st", "divfps8f4",
             "multfps8f4", "multfxps8f4", "pull4st", "push4st", "ret4st", "rsets8">>
-SharedKinds == {"sharedmem:16", "channel:", "barrier:8", "lfsr8:7", "vtextmem:0:1:1:8:4", "vtextmem:0:2:3:20:5", "queue:4", "stack:4", "uart:9600:4", "kbd:4"}
+SharedKinds == {"sharedmem:16", "channel:", "barrier:8", "lfsr8:7", "lfsr8:37", "lfsr8:172", "vtextmem:0:1:1:8:4", "vtextmem:0:2:3:20:5", "queue:4", "stack:4", "uart:9600:4", "kbd:4"}
 
 Dom(ops, thr, ws) == [ops |-> ops, threaded |-> thr, wsextra |-> ws]
 Doms == {Dom(ops, thr, ws) : ops \in OpLists \cup {DynOps, <<"add", "j", "rsets8">>}, thr \in {0, 1, 2}, ws \in {0, 3}}
+
+\* orders in which processors 0, 1 are connected to objects 0, 1 ([p, s] pairs): ascending or crossed, per processor
+C(p, so) == [p |-> p, s |-> so]
+ConnOrders == {<<C(0, 0), C(0, 1), C(1, 0), C(1, 1)>>, <<C(0, 0), C(0, 1), C(1, 1), C(1, 0)>>,
+               <<C(0, 1), C(0, 0), C(1, 0), C(1, 1)>>, <<C(0, 1), C(0, 0), C(1, 1), C(1, 0)>>}
 
 \* a machine: one or two processors of one domain, shared objects each attached to a set of processors
 Machines ==
   {[dom |-> d, nproc |-> np, sos |-> <<>>, att |-> <<>>] : d \in Doms, np \in {1, 2}} \cup
   {[dom |-> Dom(OL4, 0, 0), nproc |-> 2, sos |-> <<s>>, att |-> <<a>>] : s \in SharedKinds, a \in {{0}, {0, 1}}} \cup
-  {[dom |-> Dom(OL4, 0, 0), nproc |-> 2, sos |-> <<s1, s2>>, att |-> <<{0}, {1}>>] : s1 \in {"queue:4", "stack:4"}, s2 \in {"channel:", "sharedmem:16"}}
+  {[dom |-> Dom(OL4, 0, 0), nproc |-> 2, sos |-> <<s1, s2>>, att |-> <<{0}, {1}>>] : s1 \in {"queue:4", "stack:4"}, s2 \in {"channel:", "sharedmem:16"}} \cup
+  \* two objects of one kind attached to both processors, in every order of attachment (the position of
+  \* an object in a processor's list is the processor's own number for it)
+  {[dom |-> Dom(OL4, 0, 0), nproc |-> 2, sos |-> <<s1, s2>>, att |-> <<{0, 1}, {0, 1}>>, conn |-> c] :
+      s1 \in {"queue:8"}, s2 \in {"queue:4"}, c \in ConnOrders}
 
 DynNames(x) == {x.dom.ops[i] : i \in DOMAIN x.dom.ops} \cap {DynOps[i] : i \in DOMAIN DynOps}
 Init == m \in Machines /\ reg \in {{}, DynNames(m)}
@@ -49,7 +58,15 @@ Spec == Init /\ [][Next]_<<m, reg>>
 Unchanged == [][m' = m]_<<m, reg>>
 Registered == [][DynNames(m) \subseteq reg']_<<m, reg>>
 
+\* The command line tool loads the machine file, serves the request and writes the file back: a request
+\* that only lists or shows something is a stuttering step too, whatever the machine's register size
+\* (the tool's own -register-size option is about machines it creates, not about the one it loaded).
+ReadOnlyRequests == {"-list-bonds", "-list-inputs", "-list-outputs", "-list-processors", "-list-domains", "-list-shared-objects", "-emit-dot"}
+ToolRows == {[rsize |-> rs, request |-> q] : rs \in {8, 16, 32}, q \in ReadOnlyRequests}
+ASSUME ndJsonSerialize(IOEnv.TOOLROWS, SetToSeq(ToolRows))
+
 \* fresh = the loading process has never seen the machine's dynamic opcode names
-Export(x, fresh) == [dom |-> x.dom, nproc |-> x.nproc, sos |-> x.sos, att |-> [i \in DOMAIN x.att |-> SetToSeq(x.att[i])], fresh |-> fresh]
+Export(x, fresh) == [dom |-> x.dom, nproc |-> x.nproc, sos |-> x.sos, att |-> [i \in DOMAIN x.att |-> SetToSeq(x.att[i])], fresh |-> fresh,
+                     conn |-> IF "conn" \in DOMAIN x THEN x.conn ELSE <<>>]
 ASSUME ndJsonSerialize(IOEnv.ROWS, SetToSeq({Export(x, FALSE) : x \in Machines} \cup {Export(x, TRUE) : x \in {y \in Machines : DynNames(y) # {}}}))
 =============================================================================
